@@ -317,6 +317,9 @@ def plan_C03(prop, tier):
     fl = ("NM", "TM", "MO", "CO") if tier == "quick" else ("NM", "TM", "MO", "MOT", "CO")
     cfgs = grid(fl, W1_NS[tier], (1,)) + grid(("NM",), (0, 2), (0,))
     jobs = w1_jobs(tier, cfgs, G_ALL, 1)
+    # pairs of injected exceptions (the second one inside roll-back code) for the throwing-move flavour
+    jobs += [Job(j.label + "-dbl", j.binary, svmc_args(tier, G_INSERT1 | G_INSERTN | G_INSRANGE | G_ASSIGN | G_ERASE, 2))
+             for j in w1_jobs(tier, grid(("TM",), (2, 0) if tier == "quick" else (0, 2, 3), (1,)), G_ALL, 1)]
     jobs += w2_jobs(tier, ("NM", "TM", "MO"), W2_PAIRS[tier], (0, 7), 1)
     return run_svmc(prop, tier, jobs)
 
